@@ -110,6 +110,12 @@ def handle (cmd : String) (fs : List String) : String :=
   | "excludes", [f, d] =>
     let r := installPlanExcludes (decodeStrList f) (decodeStrList d)
     encodeStrList r.1 ++ "|" ++ encodeStrList r.2
+  | "depfile", [ks, ds, name] =>
+    -- ks: targets in dict order; ds: their dep sets in iteration order, `;` separated
+    let keys := decodeStrList ks
+    let deps := if keys.isEmpty then [] else (ds.splitOn ";").map decodeStrList
+    let df := (padTo deps.length keys).zip deps
+    encodeStrList (getAllDependenciesDfs df (decodeStr name)) ++ "#" ++ encodeStrList (getAllDependencies df (decodeStr name))
   | "fs", [ops] => runFs (parseOps ops)
   | _, _ => "bad-op"
 
